@@ -44,6 +44,7 @@ inductive CSt where
   deriving Repr, DecidableEq
 
 structure Target where
+  created : Bool := false                 -- the producer has created this sender (`wg.Add(1)`)
   buf : List (List Byte) := []
   bufClosed : Bool := false
   snd : SSt := .recv
@@ -58,7 +59,7 @@ def bufCap : Nat := 10
 
 /-- producer: `sender.send(chunk)` (blocks while the buffer is full) -/
 def Target.push (t : Target) (ch : List Byte) : Option Target :=
-  if t.buf.length < bufCap then some { t with buf := t.buf ++ [ch] } else none
+  if t.buf.length < bufCap then some { t with buf := t.buf ++ [ch], created := true } else none
 
 /-- producer: `close(buffer)` -/
 def Target.closeBuf (t : Target) : Target := { t with bufClosed := true }
@@ -138,11 +139,12 @@ def step (behs : List Beh) (s : State) : Action → Option State
     | some t, some b => (t.copStep b).map fun t' => { s with ts := s.ts.set i t' }
     | _, _ => none
 
-/-- `resp` is closed: every buffer is closed and the wait group is at zero -/
-def final (s : State) : Bool := s.closed && s.ts.all fun t => t.cop = .none || t.cop = .done
+/-- `resp` is closed: every buffer is closed and the wait group is at zero (`wg.Add(1)` when a
+sender is created, `wg.Done()` when its copier has finished) -/
+def final (s : State) : Bool := s.closed && s.ts.all fun t => !t.created || t.cop = .done
 
 /-- no goroutine of the call is left behind -/
-def quiescent (s : State) : Bool := final s && s.ts.all fun t => t.snd = .exit || t.cop = .none
+def quiescent (s : State) : Bool := final s && s.ts.all fun t => t.snd = .exit || !t.created
 
 def actions (n : Nat) : List Action :=
   Action.prod :: ((List.range n).map Action.snd ++ (List.range n).map Action.cop)
